@@ -214,6 +214,7 @@ def requestOld (lvl : Level) (nRW : Nat) (e : Env) : Outcome :=
 /-! ### line protocol
 `stale now lastContact fsmUpdate appendedAt|- fsmIndex commitIndex freshness strict` → `true|false`
 `bookreset` → `ok`; `bookapply IDX appliedNs appendedNs` → `ok` (one fsmApply);
+`bookrestore LI` / `bookfastopen LI` → `ok` (fsmRestore / fast-path Open);
 `book` → `fsmIdx fsmUpdateNs appendedAtNs|-`;
 `bookstale now lastContact commandCommitIndex freshness strict` → `true|false`
 `querynil` / `requestnil` → outcome for a request without statement list
@@ -283,6 +284,14 @@ def step (d : DState) (line : String) : DState × String :=
     match idx.toNat?, applied.toInt?, appended.toInt? with
     | some idx, some applied, some appended => ({ book := d.book.apply idx applied appended }, "ok")
     | _, _, _ => (d, "bad-op")
+  | ["bookrestore", li] =>
+    match li.toNat? with
+    | some li => ({ book := d.book.restore li }, "ok")
+    | Option.none => (d, "bad-op")
+  | ["bookfastopen", li] =>
+    match li.toNat? with
+    | some li => ({ book := d.book.fastOpen li }, "ok")
+    | Option.none => (d, "bad-op")
   | ["book"] =>
     (d, toString d.book.fsmIdx ++ " " ++ toString d.book.fsmUpdate ++ " " ++
         (match d.book.appendedAt with | some a => toString a | Option.none => "-"))
